@@ -217,8 +217,17 @@ func parseContractFile(path string) (map[string]*Contract, error) {
 			}
 			cl := &Clause{Kind: kw, Line: l.no}
 			if tm := tagRe.FindStringSubmatch(rest); tm != nil {
-				parseTags(cl, tm[1])
+				if kw == "hint" && !strings.Contains(tm[1], ":") {
+					// hint[label]: a hint carries the tags of its contract (it is assumed by the clauses after it,
+					// so it must be checked wherever they are)
+					cl.Label = strings.TrimSpace(tm[1])
+				} else {
+					parseTags(cl, tm[1])
+				}
 				rest = tm[2]
+			}
+			if kw == "hint" {
+				cl.Tags = nil
 			}
 			cl.Expr = rest
 			a, err := parseExpr(rest)
